@@ -36,6 +36,7 @@ type U struct {
 	atoms  []*E // var index -> atom expression
 	atomIx map[string]int
 	nextID int
+	memo   []memoInv // proved flag/value invariants of lazily computed loop-invariant values
 }
 
 func NewU() *U {
@@ -231,6 +232,11 @@ func (u *U) ITE(c Ref, a, b *E) *E {
 		return b
 	case a == b:
 		return a
+	}
+	if len(u.memo) > 0 {
+		if r := u.memoITE(c, a, b); r != nil {
+			return r
+		}
 	}
 	if isBoolE(a) && isBoolE(b) {
 		return u.Bool(u.bdd.ITE(c, u.ToBool(a), u.ToBool(b)))
